@@ -25,6 +25,7 @@ class Session:
         self.assumptions = []
         self._distinct = set()
         self.notes = []
+        self.drift = []
 
     # ---------------------------------------------------------------- models
     def model(self, module, params=None, cfg=None, workers=8, timeout=1500, expect_violation=None,
@@ -104,12 +105,17 @@ class Session:
             todo = []
             for r in res:
                 lines = bypath[r["file"]]
+                for d in r.get("drift", []):
+                    if lines[d - 1] not in self.drift:
+                        self.drift.append(lines[d - 1])
                 self.cov["states"] += r["states"]
                 self.cov["transitions"] += r["states"]
                 if r["accepted"]:
                     self.cov["traces_validated_against_impl"] += len(lines)
                     if r["stats"]:
                         self.cov["free_lines"] += r["stats"][-1]
+                        if len(r["stats"]) > 2:
+                            self.cov["impl_model_sessions_explained"] = self.cov.get("impl_model_sessions_explained", 0) + r["stats"][1]
                     continue
                 d = r["reject_index"]
                 self.cov["traces_validated_against_impl"] += d - 1
@@ -163,6 +169,14 @@ class Session:
         self.cov["exhaustive"] = exhaustive
         if not self.cov["samples"]:
             self.cov["samples"] = ["(no sample recorded)"]
+        if self.drift:
+            # the implementation-shaped model (ScpiProcessImpl) pins more than the properties: a session it does not explain
+            # is a note - what TLC established on MCScpiProcess no longer transfers to the code - never a violation
+            self.cov["impl_model_drift"] = len(self.drift)
+            for rec in self.drift[:3]:
+                p = C.write_replay(self.prop, "drift-%s" % hashlib.md5(json.dumps(rec, sort_keys=True).encode()).hexdigest()[:10],
+                                   {"why": "implementation-shaped model drift (not a property violation)", "record": rec})
+                self.notes.append("IMPL-DRIFT: a process session is not explained step by step by spec/ScpiProcessImpl.tla: " + p)
         C.write_evidence(self.prop, self.tier, self.level, self.cov, time.time() - self.t0,
                          len(self.violations), self.assumptions)
         C.cleanup(self.wd)
